@@ -1412,7 +1412,15 @@ static int ex_exec(char *ln)
 /* execute a single ex command */
 int ex_command(char *ln)
 {
-	int ret = ex_exec(ln);
+	static int depth;	/* commands of registers and files being executed */
+	int ret = 1;
+	if (depth < 64) {
+		depth++;
+		ret = ex_exec(ln);
+		depth--;
+	} else {
+		ex_show("command too recursive");
+	}
 	lbuf_modified(xb);
 	return ret;
 }
